@@ -26,10 +26,10 @@ def _kinds():
     return [k for k in T if k is not T.EOF], vals
 
 
-def _mk_tokens(first, nmax):
+def _mk_tokens(first, nmax, smax=1):
     def P_tokens(k1: int, k2: int, n: int, strict: bool, s: str, num: int, ind: int) -> int:
         """
-        pre: 0 <= k1 <= 29 and 0 <= k2 <= 29 and 1 <= n <= NMAX and len(s) <= 2 and 0 <= ind <= 6
+        pre: 0 <= k1 <= 29 and 0 <= k2 <= 29 and 1 <= n <= NMAX and len(s) <= SMAX and 0 <= ind <= 6
         post: _ != 0
         """
         # every token-kind sequence up to length NMAX (kinds chosen by the solver) whose string-valued tokens
@@ -65,7 +65,7 @@ def _mk_tokens(first, nmax):
             return HELD
         return HELD if isinstance(d, Document) else VIOL
 
-    P_tokens.__doc__ = P_tokens.__doc__.replace("NMAX", str(nmax))
+    P_tokens.__doc__ = P_tokens.__doc__.replace("NMAX", str(nmax)).replace("SMAX", str(smax))
     return P_tokens
 
 
@@ -334,7 +334,7 @@ def obligations(tier):
     kinds = 30
     nmax = 3 if th else 2
     for first in range(kinds):
-        obs.append(xh_ob(PROP, f"P.token-sequences[first-kind={first}]", _mk_tokens(first, nmax), timeout=2400 if th else 500, bound=f"all token-kind sequences of length 1-{nmax} over the 30 non-EOF token kinds starting with this kind (kinds chosen by the solver), strict and lenient structure; the text of IDENTIFIER/STRING/COMMENT/ENVELOPE_START/VARIABLE tokens is one symbolic string |s| <= 2 (any character), NUMBER any int, INDENT width 0..6", functions=["parser.Parser.parse_document and everything below it"]))
+        obs.append(xh_ob(PROP, f"P.token-sequences[first-kind={first}]", _mk_tokens(first, nmax), timeout=2400 if th else 500, bound=f"all token-kind sequences of length 1-{nmax} over the 30 non-EOF token kinds starting with this kind (kinds chosen by the solver), strict and lenient structure; the text of IDENTIFIER/STRING/COMMENT/ENVELOPE_START/VARIABLE tokens is one symbolic string |s| <= 1 (any character), NUMBER any int, INDENT width 0..6", functions=["parser.Parser.parse_document and everything below it"]))
     obs.append(xh_ob(PROP, "P.nesting-cap", P_nesting, timeout=600, bound="bracket depth cap-1, cap, cap+1, 4*cap, 60*cap x value position (top level, block child, META field, section child) x entry point (parse, parse_with_warnings, parse_meta_only)", functions=["parser.Parser._check_deep_nesting", "parse_list", "parse", "parse_with_warnings", "parse_meta_only"]))
     obs.append(xh_ob(PROP, "J.projected-values-are-serialisable", J_converted_values_serialise, timeout=1500, bound="value trees of depth <= 3: 9 kinds (str, int, null, bool, float, holographic, literal zone, list, inline map) at the top, a container holds an item of any of the 9 kinds (itself holding one leaf of the 7 scalar kinds) and that leaf; leaf text |s| <= 2 any character, any int; placed in META, top level, block and section; JSON dict route and Markdown route", functions=["mcp.eject._ast_to_dict", "_convert_block", "_convert_value", "_ast_to_markdown", "_block_to_markdown", "_format_markdown_value"]))
     import types
